@@ -42,12 +42,18 @@ def judge(ctx, case, out, r, mutated, models, reg):
 def run(ctx):
     ctx.rule = RULE
     ctx.lean_check("Mashu.Props.C03", THEOREMS, extra_targets=["Mashu.Dispatch"])
+    for mode, cs in decode.fixed_corpus(ctx).items():
+        decode.run_decode(ctx, cs, judge, annot=mode)
     n, depth = (3000, 3) if ctx.tier == "quick" else (50000, 4)
     done = 0
     while done < n and ctx.time_left() > 30:
         k = min(3000, n - done)
         decode.run_decode(ctx, decode.gen_decode_cases(ctx, k, depth), judge)
         done += k
+    # the same stream with every annotation wrapped in Annotated / NewType / TypeAliasType
+    for mode in (True, "newtype", "typealias"):
+        if ctx.time_left() > 30:
+            decode.run_decode(ctx, decode.gen_decode_cases(ctx, 500 if ctx.tier == "quick" else 6000, depth), judge, annot=mode)
     ctx.assumptions += [
         "builtin constructors int()/float()/str()/bool() and stdlib leaf parsers are the oracle (graph computed by the harness on every node of the input, never through mashumaro)",
     ]
@@ -55,5 +61,5 @@ def run(ctx):
 
 def replay(ctx, body):
     c = body["case"]
-    decode.run_decode(ctx, [(c["ty"], c["input"], c.get("entry", "codec"), "replay")], judge)
+    decode.run_decode(ctx, [(c["ty"], c["input"], c.get("entry", "codec"), "replay")], judge, annot=c.get("annot", False))
     return ctx.finish()
